@@ -21,7 +21,7 @@ def C():
 
 
 def is_sym(x):
-    return isinstance(x, (SxInt, SxBool, SxBytes, SxStr, SxChar))
+    return isinstance(x, (SxInt, SxBool, SxBytes, SxStr, SxChar, WordItem))
 
 
 def any_sym(args, kwargs=None):
@@ -825,8 +825,13 @@ class SxBytes:
                 cs.extend("%02x" % b)
             else:
                 hi, lo = divmod(b, 16)
-                cs.append(SxChar.of(HEXLOW, hi))
-                cs.append(SxChar.of(HEXLOW, lo))
+                ch, cl = SxChar.of(HEXLOW, hi), SxChar.of(HEXLOW, lo)
+                if isinstance(ch, SxChar):
+                    ch.org = (b, "hi")
+                if isinstance(cl, SxChar):
+                    cl.org = (b, "lo")
+                cs.append(ch)
+                cs.append(cl)
         return _mkstr(cs)
 
     def bv(s):
@@ -881,11 +886,12 @@ HEXUP = "0123456789ABCDEF"
 class SxChar:
     """one character: either alphabet[idx] (idx symbolic, always in range) or an arbitrary code
     point (alphabet None, idx = code point as SxInt)."""
-    __slots__ = ("alphabet", "idx")
+    __slots__ = ("alphabet", "idx", "org")
 
     def __init__(self, alphabet, idx):
         self.alphabet = alphabet
         self.idx = idx
+        self.org = None          # (byte SxInt, 'hi'|'lo') when this is a hex digit of bytes.hex()
 
     @staticmethod
     def of(alphabet, idx):
@@ -1040,8 +1046,17 @@ class Numeral:
         return list(reversed(rev))
 
 
+class WordItem:
+    """an entry of a (large) concrete word table selected by a symbolic index; opaque text segment"""
+    __slots__ = ("idx", "table")
+
+    def __init__(self, idx, table=None):
+        self.idx = idx
+        self.table = table
+
+
 class SxStr:
-    """str; items are 1-char python strings, SxChar, or (unresolved) Numeral segments"""
+    """str; items are 1-char python strings, SxChar, (unresolved) Numeral segments or WordItems"""
     __slots__ = ("items",)
 
     def __init__(self, items):
@@ -1049,6 +1064,8 @@ class SxStr:
 
     # ---- resolution of lazy numerals
     def _resolve(self):
+        if any(isinstance(i, WordItem) for i in self.items):
+            raise Unsupported("character-level operation on text containing symbolic word-list entries")
         if any(isinstance(i, Numeral) for i in self.items):
             out = []
             for i in self.items:
@@ -1060,7 +1077,7 @@ class SxStr:
         return self.items
 
     def has_numeral(self):
-        return any(isinstance(i, Numeral) for i in self.items)
+        return any(isinstance(i, (Numeral, WordItem)) for i in self.items)
 
     def __len__(self):
         return len(self._resolve())
@@ -1135,7 +1152,9 @@ class SxStr:
                 cs = []
                 ok = True
                 for a, b in zip(s.items, o.items):
-                    if isinstance(a, Numeral):
+                    if isinstance(a, WordItem):
+                        cs.append(z3bool(a.idx == b.idx))
+                    elif isinstance(a, Numeral):
                         if a.base != b.base:
                             ok = False
                             break
@@ -1242,6 +1261,54 @@ class SxStr:
             its.pop()
         return _mkstr(its)
 
+    def lstrip(s, chars=None):
+        its = list(s._resolve())
+        cs = chars if chars is not None else " \t\n\r\x0b\x0c\x1c\x1d\x1e\x1f\x85"
+        if isinstance(cs, SxStr):
+            raise Unsupported("strip with symbolic character set")
+        while its and bool(_char_in(its[0], cs)):
+            its.pop(0)
+        return _mkstr(its)
+
+    def rstrip(s, chars=None):
+        its = list(s._resolve())
+        cs = chars if chars is not None else " \t\n\r\x0b\x0c\x1c\x1d\x1e\x1f\x85"
+        if isinstance(cs, SxStr):
+            raise Unsupported("strip with symbolic character set")
+        while its and bool(_char_in(its[-1], cs)):
+            its.pop()
+        return _mkstr(its)
+
+    def removeprefix(s, p):
+        if len(s) >= len(p) and bool(s[:len(p)] == p):
+            return s[len(p):]
+        return s
+
+    def removesuffix(s, p):
+        if len(p) and len(s) >= len(p) and bool(s[len(s) - len(p):] == p):
+            return s[:len(s) - len(p)]
+        return s
+
+    def replace(s, old, new, count=-1):
+        if not isinstance(old, str) or len(old) != 1 or not isinstance(new, str) or count != -1:
+            raise Unsupported("replace variant")
+        out = []
+        for i in s._resolve():
+            if bool(i == old):
+                out.extend(new)
+            else:
+                out.append(i)
+        return _mkstr(out)
+
+    def count(s, sub):
+        if not isinstance(sub, str) or len(sub) != 1:
+            raise Unsupported("count variant")
+        n = 0
+        for i in s._resolve():
+            if bool(i == sub):
+                n += 1
+        return n
+
     def rfind(s, sub):
         if not isinstance(sub, str) or len(sub) != 1:
             raise Unsupported("rfind variant")
@@ -1333,6 +1400,8 @@ def _case_code(ch, f):
 
 
 def _items(p):
+    if isinstance(p, WordItem):
+        return [p]
     if isinstance(p, str):
         return list(p)
     if isinstance(p, SxStr):
